@@ -193,6 +193,12 @@ where
         SubRange { bytes, ptr, len }
     }
 
+    #[cfg(gimli_verif)]
+    #[inline]
+    fn verif_check(&self) {
+        crate::verif::check_window(self.bytes.as_ptr(), self.bytes.len(), self.ptr, self.len);
+    }
+
     #[inline]
     fn bytes(&self) -> &[u8] {
         // Safe because `T` implements `CloneStableDeref`, `bytes` can't be modified,
@@ -209,6 +215,8 @@ where
     fn truncate(&mut self, len: usize) {
         assert!(len <= self.len);
         self.len = len;
+        #[cfg(gimli_verif)]
+        self.verif_check();
     }
 
     #[inline]
@@ -216,6 +224,8 @@ where
         assert!(len <= self.len);
         self.ptr = unsafe { self.ptr.add(len) };
         self.len -= len;
+        #[cfg(gimli_verif)]
+        self.verif_check();
     }
 
     #[inline]
